@@ -247,6 +247,21 @@ pub fn run(rep: &mut Report) {
         sweep(rep, &format!("c07.reverse[{},EL]", scale_name(which)), elr.len() as u64 * 6, |i, out| j_reverse(which, elr[(i / 6) as usize], SRC[(i % 6) as usize], &m, out));
     }
     sweep(rep, "c07.zero", 2, |i, out| j_zero([TimeScale::ET, TimeScale::TDB][i as usize], out));
+    // order independence (depth-2 operation sequences on one thread): forward and reverse conversions at 12 instants
+    {
+        let inst: Vec<i128> = [-100i128, -1, 0, 1, 7, 25, 60, 100].iter().map(|y| J2000_TAI + y * 31_557_600 * NS_S + 13 * 86_400 * NS_S * (y % 5)).chain([J2000_TAI - 1, J2000_TAI + 32 * NS_S, J2000_TAI + NPC + 10 * NS_S, J2000_TAI - NPC + 20 * NS_S]).collect();
+        let ni = inst.len() as u64;
+        let mm = &m;
+        crate::engine::order_pairs(rep, "c07.order", ni * 4, |i, out| {
+            let t = inst[(i % ni) as usize];
+            match i / ni {
+                0 => j_forward(TimeScale::TAI, t, None, mm, out),
+                1 => j_forward(TimeScale::GPST, t, None, mm, out),
+                2 => j_reverse(TimeScale::ET, t - J2000_TAI, TimeScale::TAI, mm, out),
+                _ => j_reverse(TimeScale::TDB, t - J2000_TAI, TimeScale::TT, mm, out),
+            }
+        });
+    }
     // from_et_seconds / from_tdb_seconds: an ET / TDB epoch with that count of seconds past J2000 (C18's conversion rule)
     let cf = ctor_floats();
     let ncf = cf.len() as u64;
